@@ -64,6 +64,10 @@ use lightning::ln::chan_utils::ChannelTransactionParameters;
 #[cfg(not(feature = "std"))]
 mod nostd;
 
+/// verification hook H2: lock-event tap (only under `--cfg vls_verif`)
+#[cfg(vls_verif)]
+pub mod verif_sync;
+
 #[doc(hidden)]
 /// std / no_std compat
 pub mod prelude {
@@ -81,8 +85,12 @@ pub mod prelude {
 
     #[cfg(not(any(vls_verif, all(test, feature = "shuttle"))))]
     pub use alloc::sync::{Arc, Weak};
-    #[cfg(any(vls_verif, all(test, feature = "shuttle")))]
+    #[cfg(all(test, feature = "shuttle", not(vls_verif)))]
     pub use shuttle::sync::{Arc, Mutex, MutexGuard, Weak};
+    #[cfg(vls_verif)]
+    pub use crate::verif_sync::{Mutex, MutexGuard};
+    #[cfg(vls_verif)]
+    pub use shuttle::sync::{Arc, Weak};
     #[cfg(all(feature = "std", not(any(vls_verif, all(test, feature = "shuttle")))))]
     pub use std::sync::{Mutex, MutexGuard};
 
